@@ -48,13 +48,39 @@
      real data    acorr_real_path levinson_real_path aryule_real_path arburg_real_path: the model at a real field R and at F
                   commute with any *-homomorphism R -> F ("real samples declared complex give the same parameters");
                   aryule_real_parameters arburg_real_parameters: real data => real AR / reflection coefficients
+     MUSIC / EV   (Model/Eigen.v; numpy.linalg.svd is an oracle: (S, Vh) universally quantified, constrained by C17's [svd_spec] where stated)
+                  eigen_fb_modulation eigen_fb_rowphase_unit eigen_fb_conj: FB(x . phi) = D_rows FB(x) D_cols (forward row r: phi(r+P-1), conjugated
+                  backward row r: phi(-(r+1)), column k: phi(-k); all unimodular; the 100-row cap included), FB(conj x) = conj FB(x);
+                  eigen_shift eigen_mirror pmusic_pev_shift pmusic_pev_mirror: for EVERY (S, Vh) (no hypothesis) the model run on the transformed data with
+                  (S, Vh . conj phi) resp. (S, conj Vh) returns the pseudo-spectrum rolled by m bins resp. mirrored (eigen(): centred layout, mirror about the
+                  centre bin; pmusic / pev on complex data: two-sided layout incl. scale()), the same singular values, the same exception -- every NSIG rule
+                  (explicit / threshold / AIC-MDL index), method, EV floor, NFFT >= 1;
+                  eigen_svd_modulation eigen_svd_conj: (S, Vh) meets the SVD specification for FB(x) => those pairs meet it for the transformed matrix;
+                  singular_values_unique noise_form_unique music_ev_svd_independent pmusic_pev_svd_independent: two pairs meeting the specification for the
+                  SAME matrix have the same singular values and, when the noise subspace is determined (S_(NSIG-1) > S_NSIG, or NSIG = 0, or NSIG >= P),
+                  the same MUSIC and EV denominators at every bin and the same eigen / pmusic / pev output;
+                  singular_values_shift singular_values_conj eigen_shift_any_svd eigen_mirror_any_svd pmusic_pev_shift_any_svd pmusic_pev_mirror_any_svd:
+                  ANY pair meeting the specification for FB(x), ANY pair meeting it for the transformed matrix, gap at the chosen NSIG => equal singular values,
+                  output rolled by m bins / mirrored.  What this does NOT claim: that numpy's floating-point svd meets the specification (C17's correspondence
+                  checks it per run), and anything when S_(NSIG-1) = S_NSIG (the noise subspace is then a choice of the SVD routine; only the first four
+                  theorems, about the exhibited pair, apply).  The AIC/MDL argmin is one natural number on both sides (S is equal by theorem).
+                  Over the generated table (tools/props/_c04_theorems.v.in): class_rotation_subspace class_mirror_subspace routing_subspace.
+     Daniell      daniell_shift_presmoothing daniell_mirror_presmoothing: DaniellPeriodogram applies its smoother to the rolled / mirrored periodogram
+                  (nothing more is true: Example daniell_not_a_rotation)
+     class level  class_stored_center_rotation class_stored_center_mirror (store = centerdc_2_twosided, the complex store of pmusic / pev)
+                  class_stored_two2one two2one_entries (store = twosided_2_onesided, the real store of pcorrelogram)
+     correlogram, real data   over the generated table: correlogram_fold (what pcorrelogram stores for real data is twosided_2_onesided of what it
+                  stores for the same spectrum declared complex: bins 0 and NFFT/2 kept, the others doubled)
    Hypotheses that are not decoration: conjugation / real-path theorems divide, so they assume the quantities the code divides
    by are nonzero (N, N-k, mean power for 'coeff', the error powers / Burg denominators of the executed stages) -- conj(a/0)
    is not determined in an abstract field and the code produces inf/nan there.
 
    NOT PROVED (search on the implementation only): that arcovar_marple / scipy lstsq inside arma_estimate are equivariant (they are
-   the oracles [lsm], [lsq] of the model: hypothesis of the theorems, proved for the executable solver), pmusic / pev, real-data correlogram
-   (two-sided to one-sided conversion), pdaniell; arma2psd with norm=True.  scipy.linalg.lstsq is represented by the
+   the oracles [lsm], [lsq] of the model: hypothesis of the theorems, proved for the executable solver); for pmusic / pev: that numpy's svd meets
+   [svd_spec], and the degenerate case S_(NSIG-1) = S_NSIG; "twice the first half" for the real-data correlogram (false at bins 0 and NFFT/2: correlogram_fold;
+   not a clause of the statement), pdaniell (decimating smoother: no rotation by m bins on its output grid -- daniell_shift_presmoothing /
+   daniell_mirror_presmoothing state what is true: the smoother is applied to the rolled / mirrored periodogram; Example daniell_not_a_rotation
+   shows the output is not a rotation); arma2psd with norm=True.  scipy.linalg.lstsq is represented by the
    executable solver ls_solve (any solver of the normal equations agrees with it on full-rank data: C09). *)
 From Coq Require Import String.
 Require Import Spectrum.Model.ArmaEst Spectrum.Model.ArmaCall.   (* before Yule / Arma2psd: their aryule, arma2psd stay the unqualified ones *)
@@ -69,6 +95,9 @@ Require Import Spectrum.Theory.Ops Spectrum.Theory.Sum Spectrum.Theory.Vec Spect
                Spectrum.Proofs.ShiftMtm_C04 Spectrum.Proofs.HomTransfer_C04 Spectrum.Proofs.ShiftPipeline_C04
                Spectrum.Proofs.ShiftMa_C04 Spectrum.Proofs.ShiftLs_C04
                Spectrum.Proofs.ArmaEstNondeg Spectrum.Proofs.ShiftArmaEst_C04 Spectrum.Proofs.ShiftLsExact_C04 Spectrum.Instances.QcCOrd
+               Spectrum.Model.Eigen Spectrum.Proofs.EigenFB Spectrum.Proofs.EigenTheory Spectrum.Proofs.ShiftEigen_C04
+               Spectrum.Proofs.EigenUnique_C04 Spectrum.Proofs.ShiftEigenAny_C04 Spectrum.Proofs.MtmExample
+               Spectrum.Model.Daniell Spectrum.Proofs.ShiftDaniell_C04 Spectrum.Proofs.ShiftPipelineEigen_C04 Spectrum.Proofs.ShiftPipelineFold_C04
                Spectrum.Instances.QcC Spectrum.Instances.QcCTw.
 From Coq Require Import QArith Qcanon.
 
@@ -538,6 +567,173 @@ Theorem parma_exact_mirror (x : list F) P Q lag twopi sampling sbf :
 Proof. exact (parma_exact_mirror_thm n tw n_pos x P Q lag twopi sampling sbf). Qed.
 End C04ArmaConj.
 
+
+(* ---------------- MUSIC / EV (eigenfre.eigen / music / ev, pmusic / pev): equivariance of the code path ---------------- *)
+(* numpy.linalg.svd is an oracle: the model receives (S, Vh).  These four theorems hold for EVERY (S, Vh) (no hypothesis):
+   the model run on the modulated data with the rows of Vh multiplied by the conjugate phase ramp (resp. on the conjugated data
+   with conj Vh) returns the rolled (resp. mirrored) pseudo-spectrum, the same singular values, the same exception. *)
+Section C04Eigen.
+Context {F : Type} {OF : Ops F} {L : Laws OF}.
+Context (n : nat) (tw : Z -> F) {T : Twiddle n tw} (n_pos : (0 < n)%nat).
+Local Open Scope F_scope.
+
+(* FB(x . phi) = D_rows FB(x) D_cols: forward row r gets phi(r+P-1), conjugated backward row r' gets phi(-(r'+1)), column k gets phi(-k) *)
+Theorem eigen_fb_modulation (m : Z) (x : list F) P r k :
+  mat (fb_matrix (vmod (shift_phase tw m) 0 x) P) r k
+  = fb_rowphase (shift_phase tw m) x P r * mat (fb_matrix x P) r k * shift_phase tw m (- Z.of_nat k)%Z.
+Proof. exact (fb_matrix_mod_thm (sphase tw m) (sphase_add n tw n_pos m) (sphase_cj n tw n_pos m) x P r k). Qed.
+
+Theorem eigen_fb_rowphase_unit (m : Z) (x : list F) P r : nrm2 (fb_rowphase (shift_phase tw m) x P r) = 1.
+Proof. exact (fb_rowphase_nrm2 (sphase tw m) (sphase_add n tw n_pos m) (sphase_0 n tw m) (sphase_cj n tw n_pos m) x P r). Qed.
+
+Theorem eigen_fb_conj (x : list F) P r k : mat (fb_matrix (vconj x) P) r k = conj (mat (fb_matrix x P) r k).
+Proof. exact (fb_matrix_conj_thm x P r k). Qed.
+
+Theorem eigen_shift meth eps nsig thr crit amin (m : Z) (x : list F) P S Vh :
+  eigen meth eps nsig thr crit amin tw n (vmod (shift_phase tw m) 0 x) P S (vh_mod (shift_phase tw m) Vh)
+  = map_eig (rot m) (eigen meth eps nsig thr crit amin tw n x P S Vh).
+Proof. exact (eigen_shift_thm n tw n_pos meth eps nsig thr crit amin m x P S Vh). Qed.
+
+Theorem eigen_mirror meth eps nsig thr crit amin (x : list F) P S Vh :
+  eigen meth eps nsig thr crit amin tw n (vconj x) P S (vh_conj Vh)
+  = map_eig (cmirror n) (eigen meth eps nsig thr crit amin tw n x P S Vh).
+Proof. exact (eigen_mirror_thm n tw n_pos meth eps nsig thr crit amin x P S Vh). Qed.
+
+Theorem pmusic_pev_shift meth eps scale nsig thr crit amin (m : Z) (x : list F) P S Vh :
+  pclass meth eps false scale nsig thr crit amin tw n (vmod (shift_phase tw m) 0 x) P S (vh_mod (shift_phase tw m) Vh)
+  = map_eig (rot m) (pclass meth eps false scale nsig thr crit amin tw n x P S Vh).
+Proof. exact (pclass_shift_thm n tw n_pos meth eps scale nsig thr crit amin m x P S Vh). Qed.
+
+Theorem pmusic_pev_mirror meth eps scale nsig thr crit amin (x : list F) P S Vh :
+  pclass meth eps false scale nsig thr crit amin tw n (vconj x) P S (vh_conj Vh)
+  = map_eig mirror (pclass meth eps false scale nsig thr crit amin tw n x P S Vh).
+Proof. exact (pclass_mirror_thm n tw n_pos meth eps scale nsig thr crit amin x P S Vh). Qed.
+End C04Eigen.
+
+(* ---------------- MUSIC / EV over the SVD specification (ordered *-field) ---------------- *)
+(* [svd_spec FB rows P S Vh] (Proofs/EigenTheory.v) is what the theorems assume of numpy.linalg.svd(FB): P non-negative non-increasing
+   singular values, V unitary, FB^H FB V = V diag(S^2).  [noise_gap S P ns]: 0 < ns < P -> S_(ns-1) > S_ns.
+   [gap_at_choice]: the gap holds at the subspace dimension the call decides on (explicit NSIG / threshold count / AIC-MDL index + 1). *)
+Section C04EigenSvd.
+Context {F : Type} {OF : Ops F} {L : Laws OF} {OL : OrdLaws OF}.
+Context (n : nat) (tw : Z -> F) {T : Twiddle n tw} (n_pos : (0 < n)%nat).
+Local Open Scope F_scope.
+
+(* a pair meeting the specification for the transformed data matrix: same singular values, phase-ramped / conjugated vectors *)
+Theorem eigen_svd_modulation (m : Z) (x : list F) rows P S Vh :
+  svd_spec (fb_matrix x P) rows P S Vh -> svd_spec (fb_matrix (vmod (shift_phase tw m) 0 x) P) rows P S (vh_mod (shift_phase tw m) Vh).
+Proof. exact (svd_spec_shift_thm n tw n_pos m x rows P S Vh). Qed.
+
+Theorem eigen_svd_conj (x : list F) rows P S Vh :
+  svd_spec (fb_matrix x P) rows P S Vh -> svd_spec (fb_matrix (vconj x) P) rows P S (vh_conj Vh).
+Proof. exact (svd_spec_conj_thm x rows P S Vh). Qed.
+
+(* what the freedom of the SVD routine cannot change *)
+Theorem singular_values_unique (FB : list (list F)) rows P S S2 Vh Vh2 :
+  svd_spec FB rows P S Vh -> svd_spec FB rows P S2 Vh2 -> S = S2.
+Proof. exact (svd_values_list_unique_thm FB rows P S S2 Vh Vh2). Qed.
+
+Theorem noise_form_unique (FB : list (list F)) rows P S S2 Vh Vh2 meth eps ns (b : Z) :
+  svd_spec FB rows P S Vh -> svd_spec FB rows P S2 Vh2 -> noise_gap S P ns ->
+  dform meth eps tw P S Vh ns b = dform meth eps tw P S2 Vh2 ns b.
+Proof. exact (dform_unique_thm FB rows P S S2 Vh Vh2 meth eps tw ns b). Qed.
+
+Theorem music_ev_svd_independent (FB : list (list F)) rows meth eps nsig thr crit amin (x : list F) P S S2 Vh Vh2 :
+  svd_spec FB rows P S Vh -> svd_spec FB rows P S2 Vh2 -> gap_at_choice n meth nsig thr crit amin (length x) P S ->
+  eigen meth eps nsig thr crit amin tw n x P S Vh = eigen meth eps nsig thr crit amin tw n x P S2 Vh2.
+Proof. exact (eigen_unique_thm tw n n_pos FB rows meth eps nsig thr crit amin x P S S2 Vh Vh2). Qed.
+
+Theorem pmusic_pev_svd_independent (FB : list (list F)) rows meth eps isr scale nsig thr crit amin (x : list F) P S S2 Vh Vh2 :
+  svd_spec FB rows P S Vh -> svd_spec FB rows P S2 Vh2 -> gap_at_choice n meth nsig thr crit amin (length x) P S ->
+  pclass meth eps isr scale nsig thr crit amin tw n x P S Vh = pclass meth eps isr scale nsig thr crit amin tw n x P S2 Vh2.
+Proof. exact (pclass_unique_thm tw n n_pos FB rows meth eps isr scale nsig thr crit amin x P S S2 Vh Vh2). Qed.
+
+(* the singular values of the data matrix are invariant under modulation and conjugation of the data *)
+Theorem singular_values_shift (m : Z) (x : list F) rows P S Vh S' Vh' :
+  svd_spec (fb_matrix x P) rows P S Vh -> svd_spec (fb_matrix (vmod (shift_phase tw m) 0 x) P) rows P S' Vh' -> S' = S.
+Proof. exact (singular_values_shift_thm n tw n_pos m x rows P S Vh S' Vh'). Qed.
+
+Theorem singular_values_conj (x : list F) rows P S Vh S' Vh' :
+  svd_spec (fb_matrix x P) rows P S Vh -> svd_spec (fb_matrix (vconj x) P) rows P S' Vh' -> S' = S.
+Proof. exact (singular_values_conj_thm x rows P S Vh S' Vh'). Qed.
+
+(* the property clause for eigen() / music() / ev() and pmusic / pev: ANY result of svd on the data matrix, ANY result of svd on the
+   transformed data matrix (both meeting the specification), noise subspace determined *)
+Theorem eigen_shift_any_svd meth eps nsig thr crit amin (m : Z) (x : list F) rows P S Vh S' Vh' :
+  svd_spec (fb_matrix x P) rows P S Vh -> svd_spec (fb_matrix (vmod (shift_phase tw m) 0 x) P) rows P S' Vh' ->
+  gap_at_choice n meth nsig thr crit amin (length x) P S ->
+  eigen meth eps nsig thr crit amin tw n (vmod (shift_phase tw m) 0 x) P S' Vh'
+  = map_eig (rot m) (eigen meth eps nsig thr crit amin tw n x P S Vh).
+Proof. exact (eigen_shift_any_svd_thm n tw n_pos meth eps nsig thr crit amin m x rows P S Vh S' Vh'). Qed.
+
+Theorem eigen_mirror_any_svd meth eps nsig thr crit amin (x : list F) rows P S Vh S' Vh' :
+  svd_spec (fb_matrix x P) rows P S Vh -> svd_spec (fb_matrix (vconj x) P) rows P S' Vh' ->
+  gap_at_choice n meth nsig thr crit amin (length x) P S ->
+  eigen meth eps nsig thr crit amin tw n (vconj x) P S' Vh' = map_eig (cmirror n) (eigen meth eps nsig thr crit amin tw n x P S Vh).
+Proof. exact (eigen_mirror_any_svd_thm n tw n_pos meth eps nsig thr crit amin x rows P S Vh S' Vh'). Qed.
+
+Theorem pmusic_pev_shift_any_svd meth eps scale nsig thr crit amin (m : Z) (x : list F) rows P S Vh S' Vh' :
+  svd_spec (fb_matrix x P) rows P S Vh -> svd_spec (fb_matrix (vmod (shift_phase tw m) 0 x) P) rows P S' Vh' ->
+  gap_at_choice n meth nsig thr crit amin (length x) P S ->
+  pclass meth eps false scale nsig thr crit amin tw n (vmod (shift_phase tw m) 0 x) P S' Vh'
+  = map_eig (rot m) (pclass meth eps false scale nsig thr crit amin tw n x P S Vh).
+Proof. exact (pclass_shift_any_svd_thm n tw n_pos meth eps scale nsig thr crit amin m x rows P S Vh S' Vh'). Qed.
+
+Theorem pmusic_pev_mirror_any_svd meth eps scale nsig thr crit amin (x : list F) rows P S Vh S' Vh' :
+  svd_spec (fb_matrix x P) rows P S Vh -> svd_spec (fb_matrix (vconj x) P) rows P S' Vh' ->
+  gap_at_choice n meth nsig thr crit amin (length x) P S ->
+  pclass meth eps false scale nsig thr crit amin tw n (vconj x) P S' Vh'
+  = map_eig mirror (pclass meth eps false scale nsig thr crit amin tw n x P S Vh).
+Proof. exact (pclass_mirror_any_svd_thm n tw n_pos meth eps scale nsig thr crit amin x rows P S Vh S' Vh'). Qed.
+End C04EigenSvd.
+
+
+(* ---------------- DaniellPeriodogram: only the array handed to the smoother is rolled / mirrored ---------------- *)
+Section C04Daniell.
+Context {F : Type} {OF : Ops F} {L : Laws OF}.
+Context (n : nat) (tw : Z -> F) {T : Twiddle n tw} (n_pos : (0 < n)%nat).
+Local Open Scope F_scope.
+
+Theorem daniell_shift_presmoothing twopi (x w : list F) P NFFT dt sbf fs (m : Z) :
+  resolve NFFT (length x) = n -> py_eq_true dt = false ->
+  daniell tw twopi (vmod (shift_phase tw m) 0 x) w P NFFT false dt sbf fs
+  = daniell_smooth (rot m (speriodogram tw twopi x w NFFT false dt sbf fs)) P.
+Proof. exact (daniell_shift_thm n tw n_pos twopi x w P NFFT dt sbf fs m). Qed.
+
+Theorem daniell_mirror_presmoothing twopi (x w : list F) P NFFT dt sbf fs :
+  resolve NFFT (length x) = n -> (forall j, isreal (nthF w j)) -> (py_eq_true dt = true -> ofnat (length x) <> 0) ->
+  daniell tw twopi (vconj x) w P NFFT false dt sbf fs
+  = daniell_smooth (mirror (speriodogram tw twopi x w NFFT false dt sbf fs)) P.
+Proof. exact (daniell_mirror_thm n tw n_pos twopi x w P NFFT dt sbf fs). Qed.
+End C04Daniell.
+
+
+(* ---------------- class level (static, over PipelineLib.stored): the stores used by pmusic / pev and by pcorrelogram ---------------- *)
+Section C04ClassStores.
+Context {F : Type} {OF : Ops F} {L : Laws OF}.
+Local Open Scope F_scope.
+
+(* complex store = centerdc_2_twosided (SCenter2Two): commutes with the roll; turns the centred mirror of eigen() into the two-sided mirror *)
+Theorem class_stored_center_rotation twopi pm p sbf (s : sstate) (Sp : list F) (m : Z) : p_cplx p = SCenter2Two ->
+  stored twopi pm p false sbf s (rot m Sp) = rot m (stored twopi pm p false sbf s Sp).
+Proof. exact (stored_center_rot twopi pm p sbf s Sp m). Qed.
+
+Theorem class_stored_center_mirror twopi pm p sbf (s : sstate) (Sp : list F) n : p_cplx p = SCenter2Two -> length Sp = n ->
+  stored twopi pm p false sbf s (cmirror n Sp) = mirror (stored twopi pm p false sbf s Sp).
+Proof. exact (stored_center_cmirror twopi pm p sbf s Sp n). Qed.
+
+(* real store = twosided_2_onesided (STwo2One): the one-sided store is twosided_2_onesided of the two-sided store of the same spectrum *)
+Theorem class_stored_two2one twopi pm p sbf (s : sstate) (Sp : list F) :
+  p_real p = STwo2One -> p_cplx p = SAsIs -> p_scale_real p = p_scale_cplx p ->
+  st_range_N s = st_NFFT s -> length Sp = st_NFFT s ->
+  stored twopi pm p true sbf s Sp = two2one (stored twopi pm p false sbf s Sp).
+Proof. exact (stored_two2one twopi pm p sbf s Sp). Qed.
+
+Theorem two2one_entries (v : list F) j : (j <= length v / 2)%nat ->
+  nthF (two2one v) j = if ((j =? 0)%nat || (Nat.even (length v) && (j =? length v / 2)%nat))%bool then nthF v j else two * nthF v j.
+Proof. exact (nth_two2one v j). Qed.
+End C04ClassStores.
+
 (* non-vacuity: an exact character exists (n = 4), modulated runs on concrete complex data return a model *)
 Example twiddle_exists : @Twiddle _ qcc_ops 4 tw4. Proof. exact tw4_twiddle. Qed.
 Example levinson_modulation_example :
@@ -607,6 +803,108 @@ Proof.
   - apply (@parma_mirror _ qcc_ops qcc_laws qcc_ord 4 tw4 tw4_twiddle ltac:(lia)).
     + intros y p. apply (@ls_cov_conj _ qcc_ops qcc_laws).
     + exact c04_cov_nondeg.
+Qed.
+
+
+(* ---------------- MUSIC / EV: a complex record with an exact SVD over the Gaussian rationals ----------------
+   x = (5+11i, 10+2i, 5+11i), P = 2 (NP = 1, two rows): FB^H FB = [[208, 144], [144, 292]] = V diag(400, 100) V^T with
+   V = [[3/5, 4/5], [4/5, -3/5]], so S = (20, 10) and Vh = V^T.  NFFT = 4, shift by one bin. *)
+Local Open Scope Z_scope.
+Definition c04e_q (a : Z) (b : positive) : QcC := (Q2Qc (a # b), Q2Qc 0).
+Definition c04e_x : list QcC := [cz (5,0) (11,0); cz (10,0) (2,0); cz (5,0) (11,0)].
+Definition c04e_S : list QcC := [cz (20,0) (0,0); cz (10,0) (0,0)].
+Definition c04e_Vh : list (list QcC) := [[c04e_q 3 5; c04e_q 4 5]; [c04e_q 4 5; c04e_q (-3) 5]].
+Definition c04e_eps : QcC := cz (1,-52) (0,0).
+Definition c04e_scale : QcC := cz (3,0) (0,0).
+Local Close Scope Z_scope.
+Ltac c04e_eq := apply qcc_eq_canon; vm_compute; reflexivity.
+Ltac c04e_nn r := apply (@nonneg_eq _ qcc_ops qcc_ord (@nrm2 _ qcc_ops r)); [c04e_eq|apply (@nn_nrm2 _ qcc_ops qcc_ord)].
+Ltac c04e_svd :=
+  constructor;
+  [ reflexivity
+  | intros I HI; destruct I as [|[|I]]; [reflexivity|reflexivity|lia]
+  | intros I HI; destruct I as [|[|I]]; [c04e_nn (cz (4,0) (2,0))%Z|c04e_nn (cz (3,0) (1,0))%Z|lia]
+  | intros I J HIJ HJ; assert (HI : ((I = 0 /\ J = 0) \/ (I = 0 /\ J = 1) \/ (I = 1 /\ J = 1))%nat) by lia;
+    unfold le; destruct HI as [[-> ->]|[[-> ->]|[-> ->]]]; [c04e_nn (cz (0,0) (0,0))%Z|c04e_nn (cz (3,0) (1,0))%Z|c04e_nn (cz (0,0) (0,0))%Z]
+  | intros I J HI HJ; destruct I as [|[|I]]; [| |lia]; (destruct J as [|[|J]]; [| |lia]); c04e_eq
+  | intros m m' Hm Hm'; destruct m as [|[|m]]; [| |lia]; (destruct m' as [|[|m']]; [| |lia]); c04e_eq
+  | intros I HI k Hk; destruct I as [|[|I]]; [| |lia]; (destruct k as [|[|k]]; [| |lia]); c04e_eq ].
+Example c04e_svd_spec : @svd_spec _ qcc_ops qcc_ord (@fb_matrix _ qcc_ops c04e_x 2) 2 2 c04e_S c04e_Vh.
+Proof. c04e_svd. Qed.
+(* the modulated record and ANOTHER factorisation of its data matrix: the phase-ramped rows of Vh times the unit constants i and -1
+   (what an SVD routine is free to return) *)
+Definition c04e_xm : list QcC := @vmod _ qcc_ops (shift_phase tw4 1) 0 c04e_x.
+Definition c04e_Vhm : list (list QcC) :=
+  Eval vm_compute in
+    [@vscale _ qcc_ops qI (@mrow _ (@vh_mod _ qcc_ops (shift_phase tw4 1) c04e_Vh) 0);
+     @vscale _ qcc_ops (cz (-1,0) (0,0))%Z (@mrow _ (@vh_mod _ qcc_ops (shift_phase tw4 1) c04e_Vh) 1)].
+Example c04e_svd_spec_modulated : @svd_spec _ qcc_ops qcc_ord (@fb_matrix _ qcc_ops c04e_xm 2) 2 2 c04e_S c04e_Vhm.
+Proof. c04e_svd. Qed.
+Lemma c04e_gap meth : @gap_at_choice _ qcc_ops qcc_ord 4 meth (Some (NInt 1)) None CAic 0 (length c04e_x) 2 c04e_S.
+Proof.
+  intros ns E. assert (Ens : ns = 1%nat) by (destruct meth; vm_compute in E; congruence). subst ns.
+  intros _. apply (qcc_pos_frac _ 10 1); [lia|lia|c04e_eq].
+Qed.
+Definition c04e_psd (r : eig_err + (list QcC * list QcC)) : list QcC := match r with inr (p, _) => p | inl _ => [] end.
+(* the theorem applies to the two unrelated factorisations; the pseudo-spectra (MUSIC with NSIG = 1; pev with scale_by_freq) have 4 bins
+   and are not rotation invariant; the theorem for the exhibited pair yields the specification for the modulated matrix *)
+Example eigen_shift_example :
+  @music _ qcc_ops c04e_eps (Some (NInt 1)) None CAic 0 tw4 4 c04e_xm 2 c04e_S c04e_Vhm
+  = @map_eig _ (@rot _ qcc_ops 1) (@music _ qcc_ops c04e_eps (Some (NInt 1)) None CAic 0 tw4 4 c04e_x 2 c04e_S c04e_Vh)
+  /\ @pclass _ qcc_ops MEv c04e_eps false (Some c04e_scale) (Some (NInt 1)) None CAic 0 tw4 4 c04e_xm 2 c04e_S c04e_Vhm
+  = @map_eig _ (@rot _ qcc_ops 1) (@pclass _ qcc_ops MEv c04e_eps false (Some c04e_scale) (Some (NInt 1)) None CAic 0 tw4 4 c04e_x 2 c04e_S c04e_Vh)
+  /\ @svd_spec _ qcc_ops qcc_ord (@fb_matrix _ qcc_ops c04e_xm 2) 2 2 c04e_S (@vh_mod _ qcc_ops (shift_phase tw4 1) c04e_Vh)
+  /\ (let p := c04e_psd (@music _ qcc_ops c04e_eps (Some (NInt 1)) None CAic 0 tw4 4 c04e_x 2 c04e_S c04e_Vh) in
+      (length p =? 4)%nat && negb (c04_leqb (@rot _ qcc_ops 1 p) p)) = true
+  /\ (let p := c04e_psd (@pclass _ qcc_ops MEv c04e_eps false (Some c04e_scale) (Some (NInt 1)) None CAic 0 tw4 4 c04e_x 2 c04e_S c04e_Vh) in
+      (length p =? 4)%nat && negb (c04_leqb (@rot _ qcc_ops 1 p) p)) = true
+  /\ negb (c04_leqb (concat c04e_Vhm) (concat (@vh_mod _ qcc_ops (shift_phase tw4 1) c04e_Vh))) = true.
+Proof.
+  split; [|split; [|split; [|split; [|split]]]]; [| | |vm_compute; reflexivity|vm_compute; reflexivity|vm_compute; reflexivity].
+  - apply (@eigen_shift_any_svd _ qcc_ops qcc_laws qcc_ord 4 tw4 tw4_twiddle ltac:(lia) MMusic c04e_eps (Some (NInt 1)) None CAic 0%nat 1%Z c04e_x 2%nat 2%nat
+             c04e_S c04e_Vh c04e_S c04e_Vhm c04e_svd_spec c04e_svd_spec_modulated (c04e_gap MMusic)).
+  - apply (@pmusic_pev_shift_any_svd _ qcc_ops qcc_laws qcc_ord 4 tw4 tw4_twiddle ltac:(lia) MEv c04e_eps (Some c04e_scale) (Some (NInt 1)) None CAic 0%nat 1%Z c04e_x 2%nat 2%nat
+             c04e_S c04e_Vh c04e_S c04e_Vhm c04e_svd_spec c04e_svd_spec_modulated (c04e_gap MEv)).
+  - apply (@eigen_svd_modulation _ qcc_ops qcc_laws qcc_ord 4 tw4 tw4_twiddle ltac:(lia) 1%Z c04e_x 2%nat 2%nat c04e_S c04e_Vh c04e_svd_spec).
+Qed.
+(* conjugation, starting from the modulated record (its pseudo-spectrum is not mirror symmetric): the conjugated factorisation meets the
+   specification by theorem, and so does every other one; pmusic / pev store the mirrored PSD, eigen() the centred mirror *)
+Lemma c04e_gap_m meth : @gap_at_choice _ qcc_ops qcc_ord 4 meth (Some (NInt 1)) None CAic 0 (length c04e_xm) 2 c04e_S.
+Proof. exact (c04e_gap meth). Qed.
+Example eigen_mirror_example :
+  @pclass _ qcc_ops MMusic c04e_eps false None (Some (NInt 1)) None CAic 0 tw4 4 (@vconj _ qcc_ops c04e_xm) 2 c04e_S (@vh_conj _ qcc_ops c04e_Vhm)
+  = @map_eig _ (@mirror _ qcc_ops) (@pclass _ qcc_ops MMusic c04e_eps false None (Some (NInt 1)) None CAic 0 tw4 4 c04e_xm 2 c04e_S c04e_Vhm)
+  /\ @ev _ qcc_ops c04e_eps (Some (NInt 1)) None CAic 0 tw4 4 (@vconj _ qcc_ops c04e_xm) 2 c04e_S (@vh_conj _ qcc_ops c04e_Vhm)
+  = @map_eig _ (@cmirror _ qcc_ops 4) (@ev _ qcc_ops c04e_eps (Some (NInt 1)) None CAic 0 tw4 4 c04e_xm 2 c04e_S c04e_Vhm)
+  /\ (let p := c04e_psd (@pclass _ qcc_ops MMusic c04e_eps false None (Some (NInt 1)) None CAic 0 tw4 4 c04e_xm 2 c04e_S c04e_Vhm) in
+      (length p =? 4)%nat && negb (c04_leqb (@mirror _ qcc_ops p) p)) = true.
+Proof.
+  split; [|split]; [| |vm_compute; reflexivity].
+  - apply (@pmusic_pev_mirror_any_svd _ qcc_ops qcc_laws qcc_ord 4 tw4 tw4_twiddle ltac:(lia) MMusic c04e_eps None (Some (NInt 1)) None CAic 0%nat c04e_xm 2%nat 2%nat
+             c04e_S c04e_Vhm c04e_S (@vh_conj _ qcc_ops c04e_Vhm) c04e_svd_spec_modulated
+             (@eigen_svd_conj _ qcc_ops qcc_laws qcc_ord c04e_xm 2%nat 2%nat c04e_S c04e_Vhm c04e_svd_spec_modulated) (c04e_gap_m MMusic)).
+  - apply (@eigen_mirror_any_svd _ qcc_ops qcc_laws qcc_ord 4 tw4 tw4_twiddle ltac:(lia) MEv c04e_eps (Some (NInt 1)) None CAic 0%nat c04e_xm 2%nat 2%nat
+             c04e_S c04e_Vhm c04e_S (@vh_conj _ qcc_ops c04e_Vhm) c04e_svd_spec_modulated
+             (@eigen_svd_conj _ qcc_ops qcc_laws qcc_ord c04e_xm 2%nat 2%nat c04e_S c04e_Vhm c04e_svd_spec_modulated) (c04e_gap_m MEv)).
+Qed.
+
+
+(* DaniellPeriodogram is NOT shift covariant (and no rotation is defined on its decimated output): on the 4-point grid with P = 1 the model
+   returns 2 values; for the record modulated by one bin they are not a rotation (by 0 or 1) of the values for the record.  The theorem above
+   applies (the smoother sees the rolled periodogram). *)
+Local Open Scope Z_scope.
+Definition c04d_x : list QcC := [cz (1,0) (2,0); cz (-3,0) (1,-1); cz (0,0) (-1,0); cz (5,-2) (1,0)].
+Definition c04d_w : list QcC := [cz (1,-1) (0,0); cz (1,0) (0,0); cz (3,-2) (0,0); cz (1,-2) (0,0)].
+Local Close Scope Z_scope.
+Example daniell_not_a_rotation :
+  @daniell _ qcc_ops tw4 c04_twopi (@vmod _ qcc_ops (shift_phase tw4 1) 0 c04d_x) c04d_w 1 (Some 4%nat) false PyNone PyTrue c04_fs
+  = @daniell_smooth _ qcc_ops (@rot _ qcc_ops 1 (@speriodogram _ qcc_ops tw4 c04_twopi c04d_x c04d_w (Some 4%nat) false PyNone PyTrue c04_fs)) 1
+  /\ (let d0 := @daniell _ qcc_ops tw4 c04_twopi c04d_x c04d_w 1 (Some 4%nat) false PyNone PyTrue c04_fs in
+      let d1 := @daniell _ qcc_ops tw4 c04_twopi (@vmod _ qcc_ops (shift_phase tw4 1) 0 c04d_x) c04d_w 1 (Some 4%nat) false PyNone PyTrue c04_fs in
+      (length d0 =? 2)%nat && (length d1 =? 2)%nat && negb (c04_leqb d1 d0) && negb (c04_leqb d1 (@rot _ qcc_ops 1 d0))) = true.
+Proof.
+  split; [|vm_compute; reflexivity].
+  apply (@daniell_shift_presmoothing _ qcc_ops qcc_laws 4 tw4 tw4_twiddle ltac:(lia)); reflexivity.
 Qed.
 
 Print Assumptions dft_shift.
@@ -695,3 +993,28 @@ Print Assumptions parma_mirror.
 Print Assumptions pma_object_mirror.
 Print Assumptions arma_estimate_exact_conj.
 Print Assumptions parma_exact_mirror.
+Print Assumptions eigen_fb_modulation.
+Print Assumptions eigen_fb_rowphase_unit.
+Print Assumptions eigen_fb_conj.
+Print Assumptions eigen_shift.
+Print Assumptions eigen_mirror.
+Print Assumptions pmusic_pev_shift.
+Print Assumptions pmusic_pev_mirror.
+Print Assumptions eigen_svd_modulation.
+Print Assumptions eigen_svd_conj.
+Print Assumptions singular_values_unique.
+Print Assumptions noise_form_unique.
+Print Assumptions music_ev_svd_independent.
+Print Assumptions pmusic_pev_svd_independent.
+Print Assumptions singular_values_shift.
+Print Assumptions singular_values_conj.
+Print Assumptions eigen_shift_any_svd.
+Print Assumptions eigen_mirror_any_svd.
+Print Assumptions pmusic_pev_shift_any_svd.
+Print Assumptions pmusic_pev_mirror_any_svd.
+Print Assumptions daniell_shift_presmoothing.
+Print Assumptions daniell_mirror_presmoothing.
+Print Assumptions class_stored_center_rotation.
+Print Assumptions class_stored_center_mirror.
+Print Assumptions class_stored_two2one.
+Print Assumptions two2one_entries.
